@@ -67,6 +67,10 @@ pub enum Job {
     /// on the k error-correction positions of the block (the decoder's behaviour is a function
     /// of the syndromes; this enumerates its state space over a small alphabet)
     SyndromeAlphabet { si: usize, base: Base, block: usize, alpha: Vec<u8>, first: u8 },
+    /// errors at the given in-block positions whose values realise every syndrome prefix
+    /// (S_1..S_w) over `alpha`^w: drives the decoder through its singular cases (leading zero
+    /// syndromes, geometric syndrome sequences) while staying within the correction capacity
+    SyndromePrefix { si: usize, base: Base, block: usize, positions: Vec<usize>, alpha: Vec<u8> },
     /// c + v * x^s * prod_{i in a..=b}(x - 2^i): syndromes a..=b vanish, the others do not (in general)
     ZeroRange { si: usize, base: Base, block: usize, full: bool },
     /// 10x10: all words within distance `dist` of the codeword whose first error is (pos, val)
@@ -84,6 +88,33 @@ impl Job {
 pub struct CaseInfo {
     /// maximum number of corrupted codewords in any block; usize::MAX for algebraic families
     pub max_block_weight: usize,
+}
+
+/// Invert a regular square matrix over GF(256) by Gauss-Jordan elimination (destroys `m`).
+fn invert(m: &mut Vec<Vec<u8>>) -> Vec<Vec<u8>> {
+    let k = m.len();
+    let mut inv: Vec<Vec<u8>> = (0..k).map(|i| (0..k).map(|j| (i == j) as u8).collect()).collect();
+    for c in 0..k {
+        let piv = (c..k).find(|r| m[*r][c] != 0).expect("Vandermonde matrix is regular");
+        m.swap(c, piv);
+        inv.swap(c, piv);
+        let d = gf::inv(m[c][c]);
+        for x in 0..k {
+            m[c][x] = gf::mul(m[c][x], d);
+            inv[c][x] = gf::mul(inv[c][x], d);
+        }
+        for r in 0..k {
+            if r != c && m[r][c] != 0 {
+                let f2 = m[r][c];
+                for x in 0..k {
+                    let (a, b) = (gf::mul(f2, m[c][x]), gf::mul(f2, inv[c][x]));
+                    m[r][x] ^= a;
+                    inv[r][x] ^= b;
+                }
+            }
+        }
+    }
+    inv
 }
 
 fn partial_generator(j: usize) -> Vec<u8> {
@@ -255,28 +286,7 @@ pub fn expand(job: &Job, f: &mut dyn FnMut(&[u8], &[u8], CaseInfo)) {
             let orig = base_codeword(*si, *base);
             // M[i][j] = (2^(i+1))^(k-1-j): syndrome i+1 of a unit error at EC position j of the block
             let mut m: Vec<Vec<u8>> = (0..k).map(|i| (0..k).map(|j| gf::pow(gf::pow(2, i + 1), k - 1 - j)).collect()).collect();
-            // invert by Gauss-Jordan
-            let mut inv: Vec<Vec<u8>> = (0..k).map(|i| (0..k).map(|j| (i == j) as u8).collect()).collect();
-            for c in 0..k {
-                let piv = (c..k).find(|r| m[*r][c] != 0).expect("Vandermonde matrix is regular");
-                m.swap(c, piv);
-                inv.swap(c, piv);
-                let d = gf::inv(m[c][c]);
-                for x in 0..k {
-                    m[c][x] = gf::mul(m[c][x], d);
-                    inv[c][x] = gf::mul(inv[c][x], d);
-                }
-                for r in 0..k {
-                    if r != c && m[r][c] != 0 {
-                        let f2 = m[r][c];
-                        for x in 0..k {
-                            let (a, b) = (gf::mul(f2, m[c][x]), gf::mul(f2, inv[c][x]));
-                            m[r][x] ^= a;
-                            inv[r][x] ^= b;
-                        }
-                    }
-                }
-            }
+            let inv = invert(&mut m);
             let na = alpha.len();
             let total = na.pow(k as u32 - 1);
             let mut syn = vec![0u8; k];
@@ -300,6 +310,39 @@ pub fn expand(job: &Job, f: &mut dyn FnMut(&[u8], &[u8], CaseInfo)) {
                     r[g] = orig[g] ^ e;
                 }
                 f(&orig, &r, CaseInfo { max_block_weight: usize::MAX });
+            }
+        }
+        Job::SyndromePrefix { si, base, block, positions, alpha } => {
+            let sy = &SYMBOLS[*si];
+            let idx = blk_idx(sy, *block);
+            let n = idx.len();
+            let w = positions.len();
+            let orig = base_codeword(*si, *base);
+            // M[i][j] = (2^(i+1))^(power of position j); block position q carries x^(n-1-q)
+            let mut m: Vec<Vec<u8>> = (0..w).map(|i| positions.iter().map(|q| gf::pow(gf::pow(2, i + 1), n - 1 - q)).collect()).collect();
+            let inv = invert(&mut m);
+            let na = alpha.len();
+            let total = na.pow(w as u32);
+            let mut syn = vec![0u8; w];
+            let mut r = orig.clone();
+            for v in 0..total {
+                let mut vv = v;
+                for q in 0..w {
+                    syn[q] = alpha[vv % na];
+                    vv /= na;
+                }
+                if syn.iter().all(|x| *x == 0) {
+                    continue;
+                }
+                for j in 0..w {
+                    let mut e = 0u8;
+                    for i in 0..w {
+                        e ^= gf::mul(inv[j][i], syn[i]);
+                    }
+                    let g = idx[positions[j]];
+                    r[g] = orig[g] ^ e;
+                }
+                f(&orig, &r, CaseInfo { max_block_weight: w });
             }
         }
         Job::ZeroRange { si, base, block, full } => {
@@ -387,7 +430,7 @@ pub fn rs1(tier: Tier, jobs: &mut Vec<Job>) {
         }
         for base in [Base::Zero, Base::Lcg(1)] {
             for pos in 0..sy.total() {
-                let all_values = tier == Tier::Thorough || (boundary.contains(&pos) && base == Base::Lcg(1));
+                let all_values = tier == Tier::Thorough || (base == Base::Lcg(1) && (boundary.contains(&pos) || sy.total() <= 300));
                 if base == Base::Zero && tier == Tier::Quick && sy.total() > 300 && pos % 3 != 0 {
                     continue;
                 }
@@ -446,4 +489,59 @@ where
 pub fn size_of_word(n: usize) -> Option<usize> {
     // total codewords identify the size except for ties; the case description carries the name
     SYMBOLS.iter().position(|s| s.total() == n)
+}
+
+
+/// RS-S: syndrome-prefix families within the correction capacity.
+pub fn rs_syndrome_prefix(tier: Tier, jobs: &mut Vec<Job>) {
+    let pow_alpha = |n: usize| -> Vec<u8> { std::iter::once(0u8).chain((0..n).map(|i| gf::pow(2, i))).collect() };
+    for si in 0..48 {
+        let sy = &SYMBOLS[si];
+        let t = sy.t();
+        let big = sy.total() > 300;
+        for block in 0..sy.blocks {
+            if block != 0 && block != sy.blocks - 1 && (tier == Tier::Quick || big) {
+                continue;
+            }
+            let n = blk_idx(sy, block).len();
+            let nd = n - sy.ec_per_block();
+            let ws: Vec<usize> = match (tier, big) {
+                (Tier::Quick, true) => vec![2, 4],
+                (Tier::Quick, false) => (2..=t.min(5)).collect(),
+                (Tier::Thorough, true) => (2..=t.min(5)).collect(),
+                (Tier::Thorough, false) => (2..=t.min(6)).collect(),
+            };
+            for w in ws {
+                if w > t || w > n {
+                    continue;
+                }
+                let alpha = match (w, tier, big) {
+                    (_, Tier::Quick, true) => pow_alpha(5),
+                    (2..=4, _, _) => pow_alpha(7),
+                    (5, Tier::Quick, _) => pow_alpha(4),
+                    (5, _, _) => pow_alpha(6),
+                    _ => pow_alpha(4),
+                };
+                // position sets: start of the data, across the data/EC boundary, spread, end of EC
+                let mut sets: Vec<Vec<usize>> = vec![
+                    (0..w).collect(),
+                    (0..w).map(|i| (nd + i).saturating_sub(w / 2).min(n - 1)).collect(),
+                    (0..w).map(|i| i * (n - 1) / (w - 1).max(1)).collect(),
+                    (n - w..n).collect(),
+                ];
+                for s in sets.iter_mut() {
+                    s.sort_unstable();
+                    s.dedup();
+                }
+                sets.retain(|s| s.len() == w);
+                sets.dedup();
+                if tier == Tier::Quick && big {
+                    sets.truncate(2);
+                }
+                for positions in sets {
+                    jobs.push(Job::SyndromePrefix { si, base: Base::Lcg(8), block, positions, alpha: alpha.clone() });
+                }
+            }
+        }
+    }
 }
